@@ -59,6 +59,10 @@ NEEDS = {
  "C07c": "k == p: the post-tested minimum search also reads the p-mer at start + 1, outside the k-mer (out-of-bounds panic at the last window)",
  "C10c": "a partial-width VarIntKmer type and set_slice_mut of a run that ends before the last base (bottom mask half as wide as it should be)",
  "C17c": "Lmer<[u64;5]> or Lmer<[u64;6]> with length >= 128 (length byte masked with 0x7f)",
+ "C05d": "CountFilterSet with a k-mer that has fewer distinct labels than min_kmer_obs but at least min_kmer_obs observations (the threshold is taken after dedup)",
+ "C13d": "kmers_from_bytes / kmers_from_ascii on an input of exactly K bases (returns no k-mer)",
+ "C14d": "extend on a string whose length is not a multiple of 32 with fewer bases than reach the next multiple, one of them non-A (the partial word is OR-ed in unshifted)",
+ "C16d": "AVX2 available, input longer than 32 bytes and not a multiple of 32, a non-A base in the previous block at a lane beyond len % 32 (the tail word keeps stale lanes: == / hash / order differ from from_dna_string)",
  "C02c": "a join predicate that is reflexive but not constant (colour equality): join_test(kmer_data, kmer_data) always accepts",
 }
 def detection(sid):
